@@ -39,6 +39,13 @@ class Prior(Distribution, Module, ABC):
         if isinstance(self, TransformedDistribution):
             _load_transformed_to_base_dist(self)
 
+    def _load_from_state_dict(self, *args, **kwargs):
+        # load_state_dict of a parent module reaches its children only through this method, never through the child's
+        # load_state_dict: sync the base distribution here as well, so that loading a whole model restores the priors
+        Module._load_from_state_dict(self, *args, **kwargs)
+        if isinstance(self, TransformedDistribution):
+            _load_transformed_to_base_dist(self)
+
     def __setattr__(self, name: str, value: Any) -> None:
         if hasattr(self, name) and "_transformed_" in name:
             base_attr_name = name.replace("_transformed_", "")
